@@ -21,7 +21,6 @@ SPEC = dict(
         dict(fn="c13_aarch64_read_back", file=A, timeout=600, witness=True),
         dict(fn="c13_aarch64_reference_covers_table", file=A, timeout=300, witness=True),
         dict(fn="c13_riscv_encoding", file=R, timeout=900),
-        dict(fn="c13_riscv_encoding_known_rows", file=R, timeout=600),
         dict(fn="c13_riscv_read_back", file=R, timeout=600),
         dict(fn="c13_loongarch_encoding", file=L, timeout=900),
         dict(fn="c13_loongarch_encoding_known_rows", file=L, timeout=600),
